@@ -5,14 +5,21 @@
 (* drain has passed that slot (or the other readers have finished), which is the window in   *)
 (* which lazily published slots, stale slots and the token interact.                         *)
 EXTENDS ReadBuffer, Json, IOUtils
-CONSTANT Depth
-VARIABLES hist, slow
+CONSTANTS Depth, LagSets
+VARIABLES hist, slow, lag
+(* A "lagging" reader, having loaded head, stalls before it loads tail until the drain has moved head a whole  *)
+(* lap past its reading and the ring is full again (or the others have finished): its size computation then     *)
+(* sees more than Cap items - the stale-head case of the full test.                                             *)
+LagNone == {{}}
+LagLast == {{CHOOSE r \in Readers : \A o \in Readers : o <= r}}
 Fast == Readers \ slow
 CanStep(r) == ~( /\ r \in slow /\ pc[r] = "publish" /\ head <= lt[r]
                  /\ \E o \in Fast : cnt[o] < MaxAdds \/ pc[o] # "idle" )
-SimInit == Init /\ hist = <<[readers |-> Cardinality(Readers), adds |-> MaxAdds]>> /\ slow \in (SUBSET Readers) \ {Readers}
-SimNext == \E r \in Readers : CanStep(r) /\ Step(r) /\ hist' = Append(hist, [r |-> r]) /\ UNCHANGED slow
-SimSpec == SimInit /\ [][SimNext]_<<vars, hist, slow>>
+Lagging(r) == /\ r \in lag /\ pc[r] = "loadtail" /\ (head < lh[r] + Cap \/ tail - head < Cap)
+              /\ \E o \in Readers \ lag : cnt[o] < MaxAdds \/ pc[o] # "idle"
+SimInit == lag \in LagSets /\ Init /\ hist = <<[readers |-> Cardinality(Readers), adds |-> MaxAdds]>> /\ slow \in (IF lag = {} THEN (SUBSET Readers) \ {Readers} ELSE {{}})
+SimNext == \E r \in Readers : CanStep(r) /\ ~Lagging(r) /\ Step(r) /\ hist' = Append(hist, [r |-> r]) /\ UNCHANGED <<slow, lag>>
+SimSpec == SimInit /\ [][SimNext]_<<vars, hist, slow, lag>>
 Export == IF TLCGet("level") >= Depth \/ ~ENABLED SimNext
           THEN ndJsonSerialize(IOEnv.VERIF_SIMDIR \o "/sim_" \o ToString(TLCGet("stats").traces) \o ".ndjson", hist)
           ELSE TRUE
